@@ -34,6 +34,12 @@ func runC02(c *Ctx) error {
 		sto, cto := it%2 == 0, (it/2)%2 == 0
 		pd := gws.PermessageDeflate{Enabled: true, ServerContextTakeover: sto, ClientContextTakeover: cto, ServerMaxWindowBits: bits, ClientMaxWindowBits: 8 + (it/3)%8, Threshold: []int{0, 200, 512}[it%3], Level: 1 + it%9}
 		pc := pairCfg{sPMD: pd, cPMD: pd}
+		if it%4 == 3 {
+			// the client asks for smaller windows than the server is configured with (RFC 7692 7.1.2): whatever the server
+			// answers is what its compressor must respect
+			pc.cPMD.ServerMaxWindowBits = maxInt(8, bits-3)
+			pc.cPMD.ClientMaxWindowBits = maxInt(8, pd.ClientMaxWindowBits-2)
+		}
 		p, err := openPair(c, pc, it%2 == 1)
 		if err != nil {
 			return err
